@@ -66,49 +66,64 @@ func (o *signalHandler) addSignalUser(userID uint64, signalID, messageID uint32,
 		contextID: 0,
 	}
 
+	// refuse a second registration of the same user before any
+	// resource is allocated. Registrations of an object are
+	// processed one at a time (mailbox).
+	o.signalsMutex.RLock()
+	for _, user := range o.signals {
+		if user.userID == userID {
+			o.signalsMutex.RUnlock()
+			return fmt.Errorf("user %d already exists", userID)
+		}
+	}
+	o.signalsMutex.RUnlock()
+
 	e := from.EndPoint()
 	f := func(hdr *net.Header) (bool, bool) {
 		return false, true
 	}
 	q := make(chan<- *net.Message)
 	cl := func(err error) {
-		// unregister user on disconnection
-		o.removeSignalUser(userID, from)
+		// the handler is being closed (disconnection or
+		// removal): forget the user. Do not call back the
+		// endpoint from here, it holds its lock.
+		o.forgetSignalUser(userID, from)
 	}
 	newUser.contextID = e.MakeHandler(f, q, cl)
 
 	o.signalsMutex.Lock()
-
-	for _, user := range o.signals {
-		if user.userID == userID {
-			o.signalsMutex.Unlock()
-			user.context.EndPoint().RemoveHandler(user.contextID)
-			return fmt.Errorf("user %d already exists", userID)
-		}
-	}
 	o.signals = append(o.signals, newUser)
 	o.signalsMutex.Unlock()
 	return nil
 
 }
 
-// removeSignalUser unregister the given contex to events.
-func (o *signalHandler) removeSignalUser(userID uint64, from Channel) error {
+// forgetSignalUser removes the user from the list of users. It does
+// not touch the handler registered to the endpoint.
+func (o *signalHandler) forgetSignalUser(userID uint64, from Channel) (signalUser, error) {
 	o.signalsMutex.Lock()
+	defer o.signalsMutex.Unlock()
 
 	for i, user := range o.signals {
 		if user.userID == userID {
 			if from.EndPoint() == user.context.EndPoint() {
 				o.signals[i] = o.signals[len(o.signals)-1]
 				o.signals = o.signals[:len(o.signals)-1]
-				o.signalsMutex.Unlock()
-				user.context.EndPoint().RemoveHandler(user.contextID)
-				return nil
+				return user, nil
 			}
 		}
 	}
-	o.signalsMutex.Unlock()
-	return fmt.Errorf("unknown user id %d", userID)
+	return signalUser{}, fmt.Errorf("unknown user id %d", userID)
+}
+
+// removeSignalUser unregister the given contex to events.
+func (o *signalHandler) removeSignalUser(userID uint64, from Channel) error {
+	user, err := o.forgetSignalUser(userID, from)
+	if err != nil {
+		return err
+	}
+	user.context.EndPoint().RemoveHandler(user.contextID)
+	return nil
 }
 
 func (o *signalHandler) RegisterEvent(msg *net.Message, from Channel) error {
